@@ -1980,9 +1980,18 @@ def proximal_huber(space, gamma):
         def _call(self, x, out):
             """Return ``self(x, out=out)``."""
             if isinstance(self.domain, ProductSpace):
+                # Vector fields: scale every component with the pointwise
+                # factor 1 - sigma / max(|x|, gamma + sigma), i.e.
+                # gamma / (gamma + sigma) below the threshold and a
+                # shrinkage of the pointwise norm by sigma above it
                 norm = PointwiseNorm(self.domain, 2)(x)
-            else:
-                norm = x.ufuncs.absolute()
+                norm.ufuncs.maximum(gamma + self.sigma, out=norm)
+                factor = 1 - self.sigma / norm
+                for xi, out_i in zip(x, out):
+                    xi.multiply(factor, out=out_i)
+                return out
+
+            norm = x.ufuncs.absolute()
 
             mask = norm.ufuncs.less_equal(gamma + self.sigma)
             out[mask] = gamma / (gamma + self.sigma) * x[mask]
